@@ -93,9 +93,15 @@ impl Trigger for SharedTrigger {
 }
 #[derive(Debug)]
 struct CountingRoller(Arc<AtomicUsize>);
+thread_local! {
+    static FAIL_NEXT_ROLL: std::cell::Cell<bool> = std::cell::Cell::new(false);
+}
 impl Roll for CountingRoller {
     fn roll(&self, file: &std::path::Path) -> anyhow::Result<()> {
         self.0.fetch_add(1, Ordering::SeqCst);
+        if FAIL_NEXT_ROLL.with(|f| f.replace(false)) {
+            anyhow::bail!("scripted roller failure");
+        }
         std::fs::remove_file(file).map_err(Into::into)
     }
 }
@@ -122,6 +128,7 @@ fn check_history(ci: usize, case: &Value) -> Option<Value> {
     let via_config = ci % 2 == 1;
     let mut appender: Option<(Box<dyn log4rs::append::Append>, Option<Arc<TimeTrigger>>)> = None;
     let mut expected_file = String::new();
+    let mut failed_once = false;
     let res = catch(|| -> Option<Value> {
         for (i, op) in ops.iter().enumerate() {
             let t = match locals(&op["now"]).first() {
@@ -155,14 +162,40 @@ fn check_history(ci: usize, case: &Value) -> Option<Value> {
             } else {
                 let (a, _) = appender.as_ref().unwrap();
                 let before = rolls.load(Ordering::SeqCst);
-                if let Err(e) = a.append(&log::Record::builder().level(log::Level::Info).args(format_args!("r{}", i)).build()) {
-                    return Some(json!({"step": i, "what": "append failed", "error": e.to_string()}));
+                let want = op["fire"].as_bool().unwrap();
+                // in a third of the histories the roller fails at the first firing: the trigger has fired and rescheduled
+                // (TimeTrigger.tla, Arrive) - what the roller then does with the file is not its business -, the append
+                // reports the failure and does not write the record; the arrivals that follow fire as the model says
+                let roll_fails = want && !failed_once && ci % 3 == 0;
+                if roll_fails {
+                    failed_once = true;
+                    FAIL_NEXT_ROLL.with(|f| f.set(true));
+                }
+                let r = a.append(&log::Record::builder().level(log::Level::Info).args(format_args!("r{}", i)).build());
+                FAIL_NEXT_ROLL.with(|f| f.set(false));
+                if r.is_err() != roll_fails {
+                    return Some(json!({"step": i, "what": "append result", "expected_error": roll_fails, "error": r.err().map(|e| e.to_string())}));
                 }
                 let fired = rolls.load(Ordering::SeqCst) - before;
-                let want = op["fire"].as_bool().unwrap();
                 if (fired == 1) != want || fired > 1 {
                     return Some(json!({"step": i, "what": "trigger fired / did not fire", "expected_fire": want, "rolls_during_append": fired,
-                                       "now": t.to_rfc3339()}));
+                                       "now": t.to_rfc3339(), "a_roll_failed_earlier": failed_once}));
+                }
+                if roll_fails {
+                    // (the record was not written and the file is still the old one)
+                    let got = std::fs::read_to_string(&path).unwrap_or_default();
+                    if got != expected_file {
+                        return Some(json!({"step": i, "what": "file content after a failed roll", "expected": expected_file, "actual": got}));
+                    }
+                    let sched = match &appender.as_ref().unwrap().1 {
+                        Some(t) => t.verif_scheduled(),
+                        None => continue,
+                    };
+                    if sched <= t || sched.naive_local() != sched_want {
+                        return Some(json!({"step": i, "what": "scheduled instant differs", "now": t.to_rfc3339(), "expected_local": sched_want.to_string(),
+                                           "actual": sched.to_rfc3339()}));
+                    }
+                    continue;
                 }
                 // the trigger fires before the record is written: the record starts the fresh file
                 if want {
